@@ -255,6 +255,8 @@ def run_check(prop, tier, seed):
             stats["unmodelled"] += 1
         if d.get("stable") == "0":
             stats["normalised_inputs"] += 1
+        if d.get("idok") == "0":
+            stats["invalid_identifiers"] = stats.get("invalid_identifiers", 0) + 1
         if d.get("modelled") == "1" and d.get("agree") == "0":
             stats["agree_break"] += 1
             kbreak.append((cid, "outcome of model (%s) and real macro (%s) differ" % (d.get("model"), d.get("real"))))
